@@ -95,6 +95,99 @@ func rulePerChannelState(c *chk.Ctx) {
 	if n < 3 {
 		c.Undecided("WHO.chanstate", nil, "per-channel state", 0, "found %d per-channel helper objects (confirmed by hand: ≥ 3)", n)
 	}
+	// and there is no buffer storage at package level: a pool or free list of receive (or send)
+	// buffers is shared by every channel of the process, so a record handed out by one channel
+	// could be overwritten by a Recv on another while its caller is still reading it
+	shared := ""
+	var holds func(t types.Type, depth int) bool
+	holds = func(t types.Type, depth int) bool {
+		if depth > 5 {
+			return false
+		}
+		switch ts := t.String(); ts {
+		case "bytes.Buffer", "bufio.Reader", "bufio.Writer", "sync.Pool", "strings.Builder":
+			return true
+		}
+		switch u := t.Underlying().(type) {
+		case *types.Slice:
+			if b, isB := u.Elem().Underlying().(*types.Basic); isB && b.Kind() == types.Byte {
+				return true
+			}
+			return holds(u.Elem(), depth+1)
+		case *types.Array:
+			return holds(u.Elem(), depth+1)
+		case *types.Pointer:
+			return holds(u.Elem(), depth+1)
+		case *types.Map:
+			return holds(u.Elem(), depth+1)
+		case *types.Chan:
+			return holds(u.Elem(), depth+1)
+		case *types.Struct:
+			for i := 0; i < u.NumFields(); i++ {
+				if holds(u.Field(i).Type(), depth+1) {
+					return true
+				}
+			}
+		}
+		return false
+	}
+	// (constant data — a prefix or separator kept as a byte slice and only ever read — is not
+	// storage: what counts is a variable some function other than the initialiser writes
+	// through, or a pool)
+	rootGlobal := func(v ssa.Value) *ssa.Global {
+		for i := 0; i < 8; i++ {
+			switch x := v.(type) {
+			case *ssa.Global:
+				return x
+			case *ssa.FieldAddr:
+				v = x.X
+			case *ssa.IndexAddr:
+				v = x.X
+			case *ssa.UnOp:
+				v = x.X
+			case *ssa.Slice:
+				v = x.X
+			default:
+				return nil
+			}
+		}
+		return nil
+	}
+	written := map[*ssa.Global]bool{}
+	for _, f := range pkgFuncs(c, c.M.ChanPkg) {
+		if f.Name() == "init" || strings.HasPrefix(f.Name(), "init#") {
+			continue
+		}
+		ir.Instrs(f, func(ins ssa.Instruction) {
+			switch x := ins.(type) {
+			case *ssa.Store:
+				if g := rootGlobal(x.Addr); g != nil {
+					written[g] = true
+				}
+			case *ssa.MapUpdate:
+				if g := rootGlobal(x.Map); g != nil {
+					written[g] = true
+				}
+			case ssa.CallInstruction:
+				// a method with a pointer receiver called on the variable (pool.Get, buf.Write)
+				for _, a := range x.Common().Args {
+					if g := rootGlobal(a); g != nil {
+						if _, isPtr := a.Type().(*types.Pointer); isPtr {
+							written[g] = true
+						}
+					}
+				}
+			}
+		})
+	}
+	for _, m := range c.M.ChanPkg.Members {
+		if g, ok := m.(*ssa.Global); ok {
+			if pt, isPtr := g.Type().(*types.Pointer); isPtr && holds(pt.Elem(), 0) && written[g] && shared == "" {
+				shared = g.Name() + " at " + c.P.Pos(g.Pos())
+			}
+		}
+	}
+	c.Check(shared == "", "WHO.chanstate", nil, "no buffer storage at package level", 0, "no package-level variable of the channel package that is written after initialisation holds a byte buffer, reader, writer or pool", "the channel package keeps buffer storage at package level ("+shared+"): it is shared by every channel, so a record returned by one channel's Recv can be overwritten through another channel while its caller still reads it")
 }
 
 // ruleRawDecoderReadsStream: the RawJSON decoder is built directly on the
@@ -532,7 +625,13 @@ func ruleEveryPeerErrorFiltered(c *chk.Ctx) {
 		return
 	}
 	for _, f := range pkgFuncs(c, c.M.Pkg) {
-		if f.Parent() != nil || !ir.Exported(f) || f.Signature.Results().Len() != 2 || f.Signature.Results().At(1).Type().String() != "error" {
+		// (every entry point of the client and the server that hands back one call's outcome:
+		// the response with its error, or — a convenience form — the error alone)
+		nres := f.Signature.Results().Len()
+		if f.Parent() != nil || !ir.Exported(f) || nres == 0 || nres > 2 || f.Signature.Results().At(nres-1).Type().String() != "error" {
+			continue
+		}
+		if rn := ir.RecvNamed(f); nres == 1 && (rn == nil || (rn != c.M.Client && rn != c.M.Server)) {
 			continue
 		}
 		if _, isSlice := f.Signature.Results().At(0).Type().(*types.Slice); isSlice {
@@ -554,9 +653,12 @@ func ruleEveryPeerErrorFiltered(c *chk.Ctx) {
 			if !ir.InstrDominates(wait, r) {
 				continue
 			}
-			ev := ir.ReturnResult(r, 1)
+			ev := ir.ReturnResult(r, nres-1)
 			if ir.IsNilConst(ev) {
 				continue
+			}
+			if nres == 1 && !fromResponse(c, ev) {
+				continue // (an error of the transmission, not the peer's)
 			}
 			if through, _ := errorsThroughFilter(c, ev); !through {
 				bad = c.P.Pos(r.Pos())
@@ -747,6 +849,27 @@ func ruleEncoderOneOf(c *chk.Ctx) {
 				}
 				continue
 			}
+			// (the member's name handed down as an argument: `w.field("result", j.R)` — the
+			// write of the name sits in the helper, the choice where the encoder calls it)
+			if _, isParam := ir.NormCell(em.arg).(*ssa.Parameter); isParam && em.at != em.inner {
+				for _, site := range em.chain {
+					ci, isCall := site.(ssa.CallInstruction)
+					if !isCall {
+						continue
+					}
+					for _, a := range ci.Common().Args {
+						if s, ok := constString(a); ok {
+							for _, k := range []string{"method", "result", "error"} {
+								if s == k {
+									blocks[k] = site.Block()
+									innerBlocks[k] = site.Block()
+								}
+							}
+						}
+					}
+				}
+				continue
+			}
 			if hc, ri, fk, isRes := ir.StructFieldOrigin(ir.NormCell(em.arg)); isRes {
 				if h := hc.Call.StaticCallee(); h != nil && c.P.InRepo[h] && !ir.Exported(h) {
 					if fvs, known := ir.ResultFieldVals(h, ri, fk); known {
@@ -819,6 +942,28 @@ func ruleStopResultInvoked(c *chk.Ctx) {
 		for _, r := range *call.Referrers() {
 			if ci, ok := r.(ssa.CallInstruction); ok && ci.Common().Value == ssa.Value(call) {
 				invoked++
+			} else if ok {
+				// the stop function's result is a record handed to the private function that
+				// runs the hook for it
+				g := ci.Common().StaticCallee()
+				if g == nil || !c.P.InRepo[g] || ir.Exported(g) {
+					continue
+				}
+				given := false
+				for _, a := range ci.Common().Args {
+					if a == ssa.Value(call) {
+						given = true
+					}
+				}
+				runs := false
+				ir.Calls(g, func(c2 ssa.CallInstruction) {
+					if chk.LoadsField(c2.Common().Value, c.M.CShook) {
+						runs = true
+					}
+				})
+				if given && runs {
+					invoked++
+				}
 			}
 		}
 		if stop.Signature.Results().Len() == 1 && stop.Signature.Results().At(0).Type().String() == "bool" {
@@ -869,6 +1014,18 @@ func ruleNullErrorIsAbsent(c *chk.Ctx) {
 				bad = c.P.Pos(st.Pos())
 			}
 		})
+		// the reply members of a received message come from the peer's bytes only: the parser
+		// never clears one (a reply whose error member is present but malformed would otherwise
+		// look like a success to everything that reads the members)
+		cleared := ""
+		c.P.ExtInstrs(f, func(ins ssa.Instruction) {
+			st, ok := ins.(*ssa.Store)
+			if !ok || !ir.IsNilConst(st.Val) || !(chk.IsField(st.Addr, c.M.JE) || chk.IsField(st.Addr, c.M.JR)) {
+				return
+			}
+			cleared = c.P.Pos(st.Pos())
+		})
+		c.Check(cleared == "", "PROV.member", f, "reply members are never cleared while parsing", f.Pos(), "no store of nil into the error or result member of the message being parsed", "the parser clears a reply member at "+cleared+": a reply whose error member is present but does not decode would be matched by its id and completed as a success with an empty result")
 		c.Check(bad == "", "TABLE.null", f, "a null error member is no error", f.Pos(), "the parser installs an error object only by decoding into the field itself (null leaves it nil) or after excluding null", "the parser installs a fresh error object at "+bad+" without excluding null: a reply carrying \"error\":null next to its result would be reported as an error")
 	}
 	if n == 0 {
@@ -912,4 +1069,23 @@ func taskLoopFunc(c *chk.Ctx, d *dispatchModel) *ssa.Function {
 		level = next
 	}
 	return d.closure
+}
+
+// fromResponse: some source of the error value v is what a Response reports:
+// the result of one of its methods, or its error field.
+func fromResponse(c *chk.Ctx, v ssa.Value) bool {
+	isResp := func(x ssa.Value) bool {
+		if call, ok := x.(*ssa.Call); ok {
+			if g := call.Call.StaticCallee(); g != nil && ir.RecvNamed(g) == c.M.Response {
+				return true
+			}
+		}
+		return chk.LoadsField(x, c.M.RErr)
+	}
+	for _, src := range c.P.SourcesStop(v, isResp) {
+		if isResp(src) {
+			return true
+		}
+	}
+	return false
 }
